@@ -113,7 +113,7 @@ def uf_apply(name, x, concrete_fn):
     f = _uf(name)
     t = f(xe)
     ctx = Ctx.cur
-    key = (name, id(ctx))
+    key = (name, S.ENV.serial)
     terms = _UF_TERMS.setdefault(key, [])
     if not any(xe.eq(u) for u, _ in terms):
         zero = z3.RealVal(0)
@@ -150,14 +150,44 @@ def uf_apply(name, x, concrete_fn):
         for a in ax:
             S.add_side(a)
         terms.append((xe, t))
-    return S.topoly(t)
+    r = S.topoly(t)
+    S._DEFS[S._single_atom(r)] = ("uf", name, p)
+    return r
 
 
 def _pyfloat(f):
     return lambda v: f(float(v))
 
 
+def uf_cossin(x):
+    """(cos x, sin x) of a real scalar; symbolic arguments give two uninterpreted terms tied by cos^2 + sin^2 = 1"""
+    if not S._is_sym(x):
+        return math.cos(float(x)), math.sin(float(x))
+    if isinstance(x, S.Cases):
+        return x.map(lambda v: uf_cossin(v)[0]), x.map(lambda v: uf_cossin(v)[1])
+    p = S.topoly(x)
+    key = ("cossin", S.ENV.serial, frozenset(p.t.items()))
+    if key in S._PURE:
+        return S._PURE[key]
+    # two fresh reals per syntactically distinct argument (an over-approximation of the two functions: sound for
+    # 'holds'; a spurious model is filtered by the replay)
+    c, sn = S.fresh_real("cos"), S.fresh_real("sin")
+    xe = S.poly_z3(p, False)
+    S.add_side(c * c + sn * sn == 1, defines=[c, sn])
+    S.add_side(z3.Implies(xe == 0, z3.And(c == 1, sn == 0)), defines=[c, sn])
+    pc, ps = S.topoly(c), S.topoly(sn)
+    S._DEFS[S._single_atom(pc)] = ("cos", p, ps)
+    S._DEFS[S._single_atom(ps)] = ("sin", p, pc)
+    S._PURE[key] = (pc, ps)
+    return pc, ps
+
+
 def s_exp(x):
+    if isinstance(x, (S.Cx, complex)):
+        x = S.tocx(x)
+        mag = s_exp(x.re) if S._is_sym(x.re) or x.re != 0 else 1.0
+        c, sn = uf_cossin(x.im)
+        return S.Cx(S.mul(mag, c), S.mul(mag, sn))
     return uf_apply("exp", x, _pyfloat(math.exp))
 
 
@@ -714,7 +744,7 @@ NO_FAST = set()
 STRUCTURAL = {"aten.clone.default", "aten.cat.default", "aten.stack.default", "aten.flip.default", "aten.roll.default", "aten.repeat.default",
               "aten.constant_pad_nd.default", "aten.zeros_like.default", "aten.ones_like.default", "aten.empty_like.default", "aten.full_like.default",
               "aten.new_zeros.default", "aten.new_ones.default", "aten.new_empty.default", "aten.contiguous.default", "aten.resolve_conj.default",
-              "aten.view_as_real.default"}
+              "aten.view_as_real.default", "aten.select_backward.default", "aten.slice_backward.default"}
 
 
 AUTO_TABLE_VARS = 12
@@ -1142,6 +1172,31 @@ def h_stack(func, args, kwargs):
     arrs = [AK(t) for t in args[0]]
     nd = arrs[0].ndim + 1
     return out_like(np.stack(arrs, axis=dim % nd), mout)
+
+
+@handler("aten.select_backward.default", "aten.slice_backward.default")
+def h_view_backward(func, args, kwargs):
+    """gradient of select / slice: zeros of the input size with the incoming gradient written at the viewed positions"""
+    mout = run_meta(func, args, kwargs)
+    sizes = [int(v) for v in args[1]]
+    n = 1
+    for v in sizes:
+        n *= v
+    with _disable_current_modes():
+        pos = torch.arange(n).reshape(sizes)
+        if "select" in str(func):
+            pos = torch.select(pos, int(args[2]), int(args[3]))
+        else:
+            pos = torch.ops.aten.slice.Tensor(pos, int(args[2]), args[3], args[4], int(args[5]))
+        pos = pos.reshape(-1).tolist()
+    flat = np.empty(n, dtype=object)
+    zero = S.Cx(0.0, 0.0) if mout.dtype.is_complex else 0.0
+    for i in range(n):
+        flat[i] = zero
+    g = AK(args[0]).reshape(-1)
+    for k, q in enumerate(pos):
+        flat[q] = g[k]
+    return out_like(flat.reshape(sizes), mout)
 
 
 @handler("aten.flip.default")
